@@ -62,6 +62,8 @@ def KTy.ofUnion (ms : List Val.Plug) : KTy :=
 inductive TSNode where
   | mk (mod name : Bytes) (kind : Kind) (ty : Option KTy) (children : List TSNode)
 
+instance : Inhabited TSNode := ⟨.mk [] [] .inner none []⟩
+
 namespace TSNode
 def mod : TSNode → Bytes | mk m _ _ _ _ => m
 def name : TSNode → Bytes | mk _ n _ _ _ => n
